@@ -400,7 +400,14 @@ def _expected_hooks(router, route, sp, path):
 
 
 def oracle(case, obs):
-    return L.traced(_oracle, case, obs)
+    try:
+        return L.traced(_oracle, case, obs)
+    except Exception as e:           # every call into the implementation ends as an observation, never as a crash
+        import traceback
+        tb = traceback.extract_tb(e.__traceback__)
+        where = ['%s:%d %s' % (fr.filename.rsplit('/', 1)[-1], fr.lineno, fr.name) for fr in tb[-3:]]
+        return 'the oracle\'s own use of the implementation (replay / fresh router) raised %s: %s [%s]' % (
+            type(e).__name__, str(e)[:200], '; '.join(where))
 
 
 def _api_misuse(router):
@@ -495,18 +502,18 @@ def _oracle(case, obs):
                 to = [s_(n[1]['pattern']) for n in after['named'] if s_(n[0]) == c['name']]
                 if to != [pat]:
                     return 'after the accepted %s the name %r leads to %s, expected %r' % (_show(c), c['name'], to, pat)
-        if c['op'] in ('add', 'add_hook') and res == 1:
-            # refused for a filter mismatch: a router freshly built from what is registered must refuse it too (no filter
-            # may linger at a position nothing registered uses any more)
-            f0, why0 = _fresh_from(a, ctx, hook_rule)
-            if f0 is not None and f0.run(c) == 0:
-                return '%s is refused (filter mismatch) but a fresh router built from the surviving routes/hooks accepts it' % _show(c)
         if before is not None and res in (1, 2, 3, 4, 5, 8):
             # refused by the tree (filter conflict ...) or by the method table: the check runs before any write
             after = a.run(dict(op='listing'))
             if L_canon(after) != L_canon(before):
                 return 'after the REJECTED %s (error %s) the indexes changed: %s -> %s' % (
                     _show(c), res, _short(_listing_diff(before, after)), '')
+        if c['op'] in ('add', 'add_hook') and res == 1:
+            # refused for a filter mismatch: a router freshly built from what is registered must refuse it too (no filter
+            # may linger at a position nothing registered uses any more)
+            f0, why0 = _fresh_from(a, ctx, hook_rule)
+            if f0 is not None and f0.run(c) == 0:
+                return '%s is refused (filter mismatch) but a fresh router built from the surviving routes/hooks accepts it' % _show(c)
         if c['op'] == 'add_hook' and res == 0:
             hook_rule.setdefault(router.to_pattern(c['rule']), c['rule'])
         elif c['op'] == 'remove_hook' and res == 0:
